@@ -1,14 +1,16 @@
 from drv_node import NodeSuite
+from drv_process import ProcessSuite
 import props.c02 as base
 
 
 class Prop:
     ID = 'C16'
-    GEN = ['enums', 'node']
-    MODEL_TARGETS = ['model/Node.vo', 'model/NodeSpec.vo']
-    TARGETS = ['props/C16.vo']
+    GEN = ['enums', 'node', 'proc']
+    MODEL_TARGETS = ['model/Node.vo', 'model/NodeSpec.vo', 'model/ProcStatus.vo']
+    TARGETS = ['props/C16.vo', 'props/C11.vo', 'props/C12.vo']
     PROPS_FILE = 'props/C16.v'
-    SUITES = [NodeSuite(evals={'mismatches': 'mismatches', 'spec_violations': 'spec_violations_c16k', 'known:set-state-livelock': 'known_c16_livelock'})]
+    SUITES = [NodeSuite(evals={'mismatches': 'mismatches', 'spec_violations': 'spec_violations_c16k', 'known:set-state-livelock': 'known_c16_livelock'}),
+              ProcessSuite()]
     RULE = base.Prop.RULE
     ASSUMPTIONS = base.Prop.ASSUMPTIONS
     TRUSTED = base.Prop.TRUSTED
